@@ -741,7 +741,7 @@ def _collect_frames(lexicon: _AnyLexicon) -> list[lmf.SyntacticBehaviour]:
         frame['subcategorizationFrame']: {
             'id': frame['id'],
             'subcategorizationFrame': frame['subcategorizationFrame'],
-            'senses': frame.get('senses', []),
+            'senses': list(frame.get('senses', [])),
         }
         for frame in lexicon.get('frames', [])
     }
